@@ -27,7 +27,7 @@ structure JInv (ls : List Label) (s : St) : Prop where
   clk : INTR < s.now
   nb : s.batch = false
 
-theorem jinv_init (v g f n t0) (ht : INTR < t0) : JInv [] (init v g f n false t0) := by
+theorem jinv_init (v g sw f n t0) (ht : INTR < t0) : JInv [] (init v g sw f n false t0) := by
   refine ⟨?_, ?_, ?_, ?_, ?_, ?_⟩ <;> simp [init, ht]
 
 theorem count_snoc (p : Label → Bool) (ls : List Label) (l : Label) :
@@ -40,6 +40,12 @@ theorem jinv_step {ls : List Label} {s s' : St} {l : Label} (hj : JInv ls s) (hs
   have ⟨j1, j2, j3, j4, j5, j6⟩ := hj
   rw [count_snoc] at hd1
   cases l with
+  | g a =>
+    rw [g_step_frame (step_wd hs)]
+    refine ⟨⟨j1, ?_, ?_, ?_, j5, j6⟩, rfl⟩
+    · rw [count_snoc, count_snoc]; simpa [Label.isSigwait, Label.isDeliver] using j2
+    · rw [count_snoc]; simpa [Label.isSigwait] using j3
+    · rw [count_snoc]; simpa [Label.isSigwait] using j4
   | w i a =>
     obtain ⟨p, q, _, _, _, _, rfl⟩ := w_step_facts (step_w hs)
     have e : ∀ x : St, (wEffect i x a).pend = x.pend ∧ (wEffect i x a).last = x.last ∧ (wEffect i x a).spc = x.spc ∧
@@ -282,11 +288,11 @@ theorem jinv_step {ls : List Label} {s s' : St} {l : Label} (hj : JInv ls s) (hs
 
 /-- not in batch mode, the clock past INTR_TIME at start, at most one signal delivered and that one a SIGINT:
     every step of the signals thread is harmless (it never forwards, exits or cancels) -/
-theorem single_int_only_lists {v : Variant} {g : Bool} {f n t0 : Nat} {ls : List Label} {s : St} (ht : INTR < t0)
-    (he : Exec (init v g f n false t0) ls s) (h1 : ls.countP Label.isDeliver ≤ 1) (ho : OnlyInt ls) :
+theorem single_int_only_lists {v : Variant} {g sw : Bool} {f n t0 : Nat} {ls : List Label} {s : St} (ht : INTR < t0)
+    (he : Exec (init v g sw f n false t0) ls s) (h1 : ls.countP Label.isDeliver ≤ 1) (ho : OnlyInt ls) :
     JInv ls s ∧ ∀ l ∈ ls, l.harmless = true := by
   induction he with
-  | nil => exact ⟨jinv_init v g f n t0 ht, by simp⟩
+  | nil => exact ⟨jinv_init v g sw f n t0 ht, by simp⟩
   | snoc he' hs ih =>
     rename_i ls0 s1 l s2
     have h1' : ls0.countP Label.isDeliver ≤ 1 := by rw [count_snoc] at h1; omega
